@@ -694,9 +694,18 @@ def _register_vector_gradient_rules() -> None:
     @register_gradient(FrobeniusNorm)
     def gradient_frobenius_norm(expr: FrobeniusNorm, wrt: Variable) -> Expression:
         """Gradient for Frobenius norm: ∂||A||_F/∂x = (#entries holding x) * x / ||A||_F."""
-        count = sum(
-            1 for row in expr.matrix._variables for v in row if v.name == wrt.name
-        )
+        matrix = expr.matrix
+        if not isinstance(matrix, MatrixVariable):
+            # MatrixExpression: d||A||_F/dx = sum_ij a_ij * da_ij/dx / ||A||_F
+            total: Expression = Constant(0.0)
+            for elem in matrix.flatten():
+                total = _simplify_add(
+                    total, _simplify_mul(elem, gradient(elem, wrt))
+                )
+            if _is_zero(total):
+                return Constant(0.0)
+            return _simplify_div(total, expr)
+        count = sum(1 for row in matrix._variables for v in row if v.name == wrt.name)
         if count == 0:
             return Constant(0.0)
         return _simplify_div(_simplify_mul(Constant(float(count)), wrt), expr)
